@@ -409,19 +409,13 @@ fn temp_counter_sync_never_drops_a_slot() {
   // slot that holds a string (live temporaries, permanent strings), whatever the counter's value is.
   let kinds = [Kind::Perm, Kind::Temp(true), Kind::Temp(false)];
   let mut heap = mk_heap(&kinds, 0, false);
-  let start: u32 = kani::any();
-  kani::assume(start <= 6);
-  let counter = TempPStrCounter::new(start);
-  let handed_out: u8 = kani::any();
-  kani::assume(handed_out <= 2);
-  if handed_out >= 1 {
-    let _ = counter.alloc_temp_str();
-  }
-  if handed_out >= 2 {
-    let _ = counter.alloc_temp_str();
-  }
+  // the counter is a number; the names it hands out (`format!("_t{id}")`) are inline handles and never touch the table,
+  // so the counter's value after any number of hand-outs is what matters
+  let target_u32: u32 = kani::any();
+  kani::assume(target_u32 <= 8);
+  let counter = TempPStrCounter::new(target_u32);
   heap.sync_temp_counter(&counter);
-  let target = (start as usize) + (handed_out as usize);
+  let target = target_u32 as usize;
   assert!(heap.str_pointer_table.len() >= 3);
   assert!(heap.str_pointer_table.len() >= target);
   assert!(kind_of(&heap, 0) == kinds[0]);
